@@ -6,7 +6,7 @@ From Tangelo Require Import Num.Show Linq.GateModel Linq.CircuitModel Linq.Forma
 Import ListNotations.
 Open Scope string_scope.
 
-Lemma zeqmod_refl m a : zeqmod m a a = true.
+Lemma zeqmod_refl m ml l a : zeqmod m ml l a a = true.
 Proof. unfold zeqmod. apply Z.eqb_refl. Qed.
 
 Definition show_ozs (o : option (list Z)) : string :=
